@@ -6,6 +6,7 @@ import (
 	"fmt"
 	"os"
 	"sync"
+	"syscall"
 )
 
 // InnerFS is what the recorder wraps: the real file-system seam of
@@ -38,7 +39,34 @@ type IOEvent struct {
 // Fault describes an injected failure.
 type Fault struct {
 	At   int    // call index
-	Kind string // "error" (no effect), "write-zero" (truncate then fail), "write-partial" (prefix then fail)
+	// "error" (no effect, the real file system is not called), "write-zero"
+	// (truncate then fail), "write-partial" (prefix then fail), "open-fails"
+	// (the REAL call runs while the process has no free file descriptor, so
+	// its open fails with EMFILE inside the code under test)
+	Kind string
+}
+
+// WithNoFreeFD runs fn while every open(2) of this process fails with
+// EMFILE: the soft RLIMIT_NOFILE is lowered to the lowest free descriptor
+// number for the duration of the call.
+func WithNoFreeFD(fn func()) error {
+	var old syscall.Rlimit
+	if err := syscall.Getrlimit(syscall.RLIMIT_NOFILE, &old); err != nil {
+		return err
+	}
+	fd, err := syscall.Open("/dev/null", syscall.O_RDONLY, 0)
+	if err != nil {
+		return err
+	}
+	syscall.Close(fd)
+	lim := old
+	lim.Cur = uint64(fd)
+	if err := syscall.Setrlimit(syscall.RLIMIT_NOFILE, &lim); err != nil {
+		return err
+	}
+	defer syscall.Setrlimit(syscall.RLIMIT_NOFILE, &old)
+	fn()
+	return nil
 }
 
 // ErrInjected is the error returned by injected faults.
@@ -70,6 +98,23 @@ func (f *RecFS) ReadFile(path string) ([]byte, error) {
 	f.mu.Lock()
 	n, kind := f.next()
 	f.mu.Unlock()
+	if kind == "open-fails" {
+		var b []byte
+		var err error
+		if WithNoFreeFD(func() { b, err = f.Inner.ReadFile(path) }) == nil {
+			ev := IOEvent{N: n, Op: "read", Path: path, Bytes: len(b)}
+			if err != nil {
+				ev.Err = err.Error()
+				ev.NotExist = os.IsNotExist(err)
+				if !ev.NotExist {
+					ev.Injected = kind
+				}
+			}
+			f.add(ev)
+			return b, err
+		}
+		kind = "error"
+	}
 	if kind != "" {
 		f.add(IOEvent{N: n, Op: "read", Path: path, Err: ErrInjected.Error(), Injected: kind})
 		return nil, ErrInjected
@@ -89,11 +134,25 @@ func (f *RecFS) FindWithPrefixAndSuffix(prefix, suffix string) ([]string, error)
 	f.mu.Lock()
 	n, kind := f.next()
 	f.mu.Unlock()
+	fd, ok := f.Inner.(Finder)
+	if kind == "open-fails" && ok {
+		var m []string
+		var err error
+		if WithNoFreeFD(func() { m, err = fd.FindWithPrefixAndSuffix(prefix, suffix) }) == nil {
+			ev := IOEvent{N: n, Op: "find", Path: prefix, Suffix: suffix, Bytes: len(m)}
+			if err != nil {
+				ev.Err = err.Error()
+				ev.Injected = kind
+			}
+			f.add(ev)
+			return m, err
+		}
+		kind = "error"
+	}
 	if kind != "" {
 		f.add(IOEvent{N: n, Op: "find", Path: prefix, Suffix: suffix, Err: ErrInjected.Error(), Injected: kind})
 		return nil, ErrInjected
 	}
-	fd, ok := f.Inner.(Finder)
 	if !ok {
 		return nil, fmt.Errorf("inner fs has no Find")
 	}
@@ -111,6 +170,19 @@ func (f *RecFS) WriteFile(path string, data []byte) error {
 	f.mu.Lock()
 	n, kind := f.next()
 	f.mu.Unlock()
+	if kind == "open-fails" {
+		var err error
+		if WithNoFreeFD(func() { err = f.Inner.WriteFile(path, data) }) == nil {
+			ev := IOEvent{N: n, Op: "write", Path: path, Bytes: len(data), Sum: SumOf(data)}
+			if err != nil {
+				ev.Err = err.Error()
+				ev.Injected = kind
+			}
+			f.add(ev)
+			return err
+		}
+		kind = "error"
+	}
 	switch kind {
 	case "error":
 		f.add(IOEvent{N: n, Op: "write", Path: path, Bytes: len(data), Err: ErrInjected.Error(), Injected: kind})
